@@ -175,6 +175,8 @@ def exhaustive_configs(tier):
             ("2app-2files+1col", {"actors": [A(mk_row("x", 1)), A(mk_row("y", 2)), C(1)]}),
             ("1app1row+2col", {"actors": [A(mk_row("x", 1)), C(1), C(1)]}),
             ("1app2rows+1col2rounds", {"actors": [A(mk_row("x", 1), mk_row("y", 1)), C(2)]}),
+            ("2app2rows-samefile+1col", {"actors": [A(mk_row("a", 1), mk_row("b", 1)), A(mk_row("c", 1), mk_row("d", 1)), C(1)]}),
+            ("2app-samefile+1col2rounds", {"actors": [A(mk_row("x", 1)), A(mk_row("y", 1)), C(2)]}),
         ]
     return cfgs
 
@@ -197,7 +199,7 @@ def run_scenarios(chk):
     counts = []        # (name, config, number of impl schedules) for complete enumerations
     t0 = time.time()
     # 1. exhaustive enumeration of the small configurations
-    budget_each = 120 if quick else None
+    budget_each = 200 if quick else None
     for name, config in exhaustive_configs(chk.tier):
         n = 0
         complete = True
